@@ -382,6 +382,32 @@ def r3_path_param(c, facts):
             c.ok(R, {q.split('::')[-1]: 'walks UriSegment::Variable of uri.path'})
         else:
             c.bad(R, '%s:does-not-walk-path-variables' % q.split('::')[-1], '%s no longer walks the Variable segments of uri.path' % q)
+    # the parameters are attached on every path: no return of relation_path_item skips uri_params
+    if ups and all(rp.dominates(ups[0][0], r) for r in rp.return_blocks()):
+        c.ok(R, {'relation_path_item': 'uri_params(..) on every path to a return'})
+    elif ups:
+        c.bad(R, 'relation_path_item:return-without-uri_params', 'relation_path_item can return a path item without calling uri_params: the key still contains {variables} but the path parameters are missing (e.g. a resource without transfers)')
+    # a literal segment is emitted verbatim: its text cannot turn into a {variable} of the key
+    eu = c.anchor(R, 'oal_compiler::eval::eval_uri_template')
+    eidx = MF.defs_index(eu)
+    NEUTRAL_LIT = {'as_str', 'segments', 'into', 'from', 'into_iter', 'next', 'to_string', 'to_owned', 'clone', 'deref', 'as_ref', 'borrow', 'node', 'cast', 'iter', 'map', 'collect'}
+    nlit = 0
+    for f2 in facts.family(eu):
+        if not f2.mir:
+            continue
+        i2 = MF.defs_index(f2)
+        for b2, blk in f2.blocks():
+            for s2 in blk['stmts']:
+                if s2['s'] == 'assign' and s2['rv']['r'] == 'aggr' and s2['rv'].get('adt', '').endswith('spec::UriSegment') and s2['rv'].get('variant') == 'Literal':
+                    nlit += 1
+                    op = s2['rv']['ops'][0]
+                    nm = {P.strip(n).split('::')[-1] for n, _, _ in MF.slice_back(f2, op['l'], i2)['calls']} if 'l' in op else set()
+                    extra = sorted(nm - NEUTRAL_LIT)
+                    if 'as_str' in nm and not extra:
+                        c.ok(R, {'literal segment': 'the source text of the path element, verbatim', 'fn': f2.qname})
+                    else:
+                        c.bad(R, 'literal-segment-transformed:%s' % ','.join(extra), 'eval_uri_template transforms the text of a literal path segment (%s): decoded or rewritten text can contain `{..}` and becomes a template variable of the path key without a path parameter' % (extra or 'not from PathElement::as_str'))
+    c.floor(R, 'UriSegment::Literal construction sites in eval_uri_template', nlit, 1)
     # every path parameter built reaches the caller: the returned list is the list pushed to, not a filtered copy
     up = c.anchor(R, 'oal_openapi::Builder::uri_params')
     uidx = MF.defs_index(up)
